@@ -63,6 +63,9 @@ TABLE = {
     "c03_enable_not_exported.diff": ("box", "contracts.c13:analyze_c:analyze_arg_sets", None),
     "c04_folded_cell_keeps_enable_constant.diff": ("box", "contracts.c04:cleanup_gates:cleanup_arg_sets", None),
     "c20_bundle_alias_not_collected.diff": ("e2e", 'Signal x = ("signal-A", 6);\nSignal y = ("signal-B", 2);\nBundle t = { x, y };\nBundle u = t * 2;\nBundle r = u;\nBundle p = t;\n', None),
+    "c14_place_five_arguments_accepted.diff": ("contracts.c14d", "_validate_place_call", "5 arguments"),
+    "c02_filter_result_shares_member_set.diff": ("contracts.c14d", "_infer_bundle_filter_type", None),
+    "c14_entity_output_of_non_entity_silent.diff": ("contracts.c14d", "_infer_entity_output_type", None),
     "c14_write_keyed_by_scope.diff": ("contracts.c14c", "infer_expr_type", "m.write(v), v: SignalValue"),
     "c14_write_loop_needs_three.diff": ("contracts.c14c", "infer_expr_type", "m.write(v), v: SignalValue"),
     "c14_write_loop_inner_cell_refused.diff": ("contracts.c14c", "infer_expr_type", "m.write(v), v: SignalValue"),
